@@ -1,6 +1,7 @@
 //! Semantics-free harness: renders abstract cases, runs the real nitrogql code,
 //! and re-encodes what it observed as ndjson events for the TLA+ trace specs.
 //! A panic in the code under test is data (an event), never a harness failure.
+mod imports;
 mod loader;
 mod paths;
 mod util;
@@ -18,6 +19,7 @@ fn main() {
     let rest = &args[2..];
     let rc = match args[1].as_str() {
         "paths" => paths::run(rest),
+        "imports" => imports::run(rest),
         "loader" => loader::run(rest),
         "loader-child" => loader::run_child(rest),
         other => {
